@@ -96,7 +96,8 @@ func (o Op) String() string {
 }
 
 type commitPoint struct {
-	logLen int
+	logLen int // from this log length on, this is the durably committed state
+	madeAt int // log length right after the commit that wrote this state
 	root   []byte
 	weight uint64
 	m      *model.WModel
@@ -115,6 +116,9 @@ type World struct {
 	ChkKeys    []string // storage keys present when the checkpoint was taken
 	SinceChk   int      // commits since the checkpoint
 	RolledBack bool
+	// context of the last failed recovery check (for attributing it to a known finding)
+	FailCP    *commitPoint
+	FailStore *dev.Store
 }
 
 func NewWorld(sh Shared) *World {
@@ -163,7 +167,7 @@ func (w *World) Apply(o Op) (fail string) {
 		if err := b.Commit(false); err != nil {
 			return fmt.Sprintf("batch.Commit: %v", err)
 		}
-		w.Commits = append(w.Commits, commitPoint{logLen: w.S.Len(), root: w.M.Root(), weight: w.M.Total(), m: w.M.Clone()})
+		w.Commits = append(w.Commits, commitPoint{logLen: w.S.Len(), madeAt: w.S.Len(), root: w.M.Root(), weight: w.M.Total(), m: w.M.Clone()})
 		w.Pending = false
 		w.GCPending = 0
 		w.SinceChk++
@@ -203,7 +207,10 @@ func (w *World) Apply(o Op) (fail string) {
 		}
 		w.M = w.Chk.m.Clone()
 		w.Pending = false
+		w.GCPending = 0
 		w.RolledBack = true
+		// from the rollback's storage write on, the checkpoint is the committed state
+		w.Commits = append(w.Commits, commitPoint{logLen: w.S.Len(), madeAt: w.Chk.madeAt, root: w.Chk.root, weight: w.Chk.weight, m: w.Chk.m.Clone()})
 	}
 	return ""
 }
